@@ -3,9 +3,9 @@ package props
 import (
 	"flag"
 	"fmt"
-	"strconv"
 	"io"
 	"os"
+	"strconv"
 	"testing"
 	"time"
 
